@@ -148,6 +148,28 @@ pub fn shapes() -> Vec<Shape> {
             .collect();
         v.push(Shape { name: format!("enum({})", inn.name), decls, ctor: format!("{ename}.Ca({})", inn.ctor), probe: format!("pew{ci}({{x}})"), initial: inn.initial, muts });
     }
+    // a variant whose payload is directly another variant, with a mutable array two levels down
+    let nested: [(&str, &str, &str, &str, &str); 3] = [
+        ("option<option<array<int>>>", "", "option<option<array<int>>>", "option.some(option.some([1, 2]))", ".some(i) -> match i {\n      .some(a) -> BODY\n      .none -> NONE\n    }\n    .none -> NONE"),
+        ("result<option<array<int>>, int>", "", "result<option<array<int>>, int>", "result.ok(option.some([1, 2]))", ".ok(i) -> match i {\n      .some(a) -> BODY\n      .none -> NONE\n    }\n    .err(_) -> NONE"),
+        ("Wr(Lf(array<int>)) (user enums)", "type Lf = Leaf(array<int>) | Nul\ntype Wr = Wrap(Lf) | Emp", "Wr", "Wr.Wrap(Lf.Leaf([1, 2]))", ".Wrap(i) -> match i {\n      .Leaf(a) -> BODY\n      .Nul -> NONE\n    }\n    .Emp -> NONE"),
+    ];
+    for (k, (name, tydecl, ty, ctor, arms)) in nested.iter().enumerate() {
+        let mut decls: Vec<String> = vec![];
+        if !tydecl.is_empty() {
+            decls.push(tydecl.to_string());
+        }
+        decls.push(format!("fn pnv{k}(o: {ty}) -> int {{\n  match o {{\n    {}\n  }}\n}}", arms.replace("BODY", "a[0] * 10 + a[1]").replace("NONE", "0")));
+        decls.push(format!("fn snv{k}(o: {ty}) -> int {{\n  match o {{\n    {}\n  }}\n}}", arms.replace("BODY", "{\n        a[0] = 7\n        1\n      }").replace("NONE", "0")));
+        v.push(Shape {
+            name: name.to_string(),
+            decls,
+            ctor: ctor.to_string(),
+            probe: format!("pnv{k}({{x}})"),
+            initial: 12,
+            muts: vec![("inner-set-elem".into(), format!("snv{k}({{x}})"), 72)],
+        });
+    }
     v
 }
 
@@ -337,7 +359,7 @@ impl Prop for C08 {
     }
     fn rule(&self, tier: Tier) -> String {
         format!(
-            "{} programs: captured shape in {{array<int>, struct, tuple, enum, string, closure}} and each of the five data kinds nested once inside {{array, struct field, tuple, enum payload}} (26 shapes) \
+            "{} programs: captured shape in {{array<int>, struct, tuple, enum, string, closure}} and each of the five data kinds nested once inside {{array, struct field, tuple, enum payload}} (26 shapes), plus 3 shapes in which a variant's payload is directly another variant with an array below \
              x mutation performed by the task (none / each applicable mutation of the shape) x mutation performed by the spawner after the spawn (none / each / reassigning the variable), both sides observed through channels \
              (task's view, spawner's view); plus two programs where the captured value is or contains a channel (must stay shared). Each program under uniform budgets {:?} and ALL embedder executions with <= {} deviation(s) \
              (execution cap {} per program). Model: deep copy at spawn.",
